@@ -49,7 +49,7 @@ func spansFrom(t T, id int, s0 int64) bool {
 	n := t[id-1]
 	for _, c := range n.Kids {
 		k := t[c-1]
-		if !k.Root && k.Len > 0 && !(s0 <= k.Start && k.Start+k.Len <= s0+n.Len) {
+		if !k.Root && k.Kind != "synth" && !(s0 <= k.Start && k.Start+k.Len <= s0+n.Len) {
 			return false
 		}
 	}
